@@ -17,30 +17,38 @@ TEXT = {
             "error can never abort or redirect the parse (S: SW, both feature configurations); each unsafe operation "
             "on the input path is guarded by its enumerated guard and nothing else touches the raw-pointer buffer "
             "(N: UG); input-sized allocations are bounded by a constant (N: AB); every byte the encoder writes with "
-            "write_all is valid UTF-8 (S: U8); explicit panic calls are guarded (N: PX). Not decided: index/overflow "
+            "write_all is valid UTF-8 (S: U8); explicit panic calls are guarded and str byte-offset slicing uses only "
+            "offsets that are char boundaries (N: PX). Not decided: index/overflow "
             "panics, termination of numeric loops.",
             "error-provenance and swallow dataflow, unsafe-guard dominance, allocation-bound backward slices over MIR"),
     'C02': ("Partial, table level (N): every key the decoder reads is written by the writer of the same section "
             "(minus the statement's own exclusions), from the field the decoder stores it in; literal key text and "
-            "numeric enum encodings are read back to the same key/variant; section headers are recognised. Not "
+            "numeric enum encodings are read back to the same key/variant; values of the key/value, event and colour "
+            "sections are written as stored (no rounding/cast/arithmetic, K7); spinner/hold end-time separator by kind "
+            "(K8); encoder redundancy tolerance not coarser than the decoder's (K9); records are lines (K10); section "
+            "headers are recognised. Not "
             "decided: equality of decoded values (control-point merge, path serialisation, float text).",
             "encoder/decoder key-table agreement over typed HIR (format_args templates decoded) and MIR"),
     'C03': ("Partial (N): the value of a key/value line is the remainder after the first colon; the six key/value "
             "parsers split only through that one function; metadata lines are not comment-stripped (also not by a "
-            "delegating decoder); writer key<->field pairing as in C02. Not decided: that an arbitrary edited value "
+            "delegating decoder); writer key<->field pairing and values written as stored as in C02; the decode-side "
+            "numeric limits and funnel of C11. Not decided: that an arbitrary edited value "
             "prints in a form the parser accepts.",
             "callee/constant checks on MIR of the splitter and its callers + key-table agreement"),
     'C04': ("Framing clause only (S for framing): the version line is written first; the 8 section writers are "
             "called once each, unconditionally, in canonical order; each starts with its own header, which the "
             "decoder's header table maps to that section; no other bracketed header is written; literal keys are "
-            "accepted. Not decided: that every record line is accepted by its parser (value-level; the known "
+            "accepted; a spinner's end time is followed by `,` and a hold's by `:` by kind alone (N: K8); every begun "
+            "record line is ended before the next record (N: K10). Not decided: that every record line is accepted "
+            "by its parser (value-level; the known "
             "trailing-type-letter defect F3 is not visible to this technique).",
             "ordered write-event extraction from typed HIR + header-table agreement"),
     'C05': ("Partial (S for the structural clauses): section->parser dispatch pairing for all 11 sections; header "
             "table equals the format's and strips exactly one bracket pair; skip test dominates header test "
             "dominates parser call on the same line; a skipped line only leads to the next read; the section loop "
             "ends only at end of input/I-O error; parser results cannot influence control flow; no impl overrides "
-            "the driver; LF delimiter and trailing trim. Not decided: version-line rules, BOM/CRLF behaviour as "
+            "the driver; LF delimiter and trailing trim; skip rule and version-line decision tables (N: SC-C05); the "
+            "line buffers are cleared before they are appended to (S: LB). Not decided: BOM/CRLF behaviour as "
             "values.",
             "dominance and reachability checks on the driver's MIR + match-table extraction from HIR"),
     'C06': ("Essentially whole (S): on every CFG path of each of the 8 primary section parsers that may end in Err, "
@@ -65,21 +73,26 @@ TEXT = {
             "forward path exploration of io::Result values over MIR (typestate of Result/ControlFlow holders)"),
     'C11': ("Partial (N): numeric conversions in the six parsers go through the limit-checking parser (exceptions "
             "enumerated with reasons); the five flag keys are `== 1`; slider multiplier / tick rate clamps; break end "
-            ">= start; limit constant; value splitting (KV). 'Invalid values leave the field untouched' is C06. Not "
-            "decided: precedence between event kinds, last-valid-occurrence-wins as behaviour.",
+            ">= start; limit constant; background precedence (background unconditional, sprite only while empty, video "
+            "only under a negated extension test, the 7 extensions); bookmark entries skipped not cut; value "
+            "splitting (KV). 'Invalid values leave the field untouched' is C06 (EA). Not decided: how the extension is "
+            "extracted, last-valid-occurrence-wins as behaviour.",
             "spec-constant backward slices and numeric-funnel callee checks over MIR/HIR"),
     'C12': ("Partial (N/S): clamp constants of the four point constructors and the mode-gated scroll speed; the "
             "parser builds points only through the clamping constructors; the NaN test dominates timing-point "
-            "construction; the final flush of the pending group precedes the conversion and flushes all four kinds. "
+            "construction; of the four queued points only the timing point is conditional (on timing_change); the final "
+            "flush of the pending group precedes the conversion and flushes all four kinds. "
             "Not decided: the precedence rules themselves.",
             "spec-constant slices, control-dependence and must-pass-through checks over MIR"),
     'C13': ("Structural (S for order/uniqueness by the insertion lemma): the four ControlPoint::add impls binary-"
             "search their own list with total_cmp on time, insert at Err(i), replace at Ok(i); ControlPoints::add "
-            "tests redundancy before inserting; each lookup searches its own list with its documented fallback. "
+            "tests redundancy before inserting; each lookup searches its own list for the unmodified time parameter "
+            "with its documented fallback. "
             "Not decided: that is_redundant compares the right values.",
             "sibling-agreement extraction over MIR/HIR against a small expected table"),
     'C14': ("Partial (N): flag constants and kind precedence circle>slider>spinner>hold; coordinate/length limits "
-            "and truncating casts; repeat cap and node count; non-negative durations; circle/slider arms agree on "
+            "and truncating casts; repeat cap and node count; node defaults; non-negative durations; circle/slider arms "
+            "agree on "
             "combo rules. Not decided: path-string segmentation, sample/bank mapping.",
             "spec-constant slices and sibling agreement over HIR/MIR"),
     'C15': ("Partial: stable sort by start_time/total_cmp precedes break processing precedes the velocity loop (S "
@@ -87,19 +100,25 @@ TEXT = {
             "decided: velocity/duration formulas as numbers, shift invariance.",
             "dominance (phase order) and spec-constant checks over MIR/HIR"),
     'C18': ("Strong: kill-before-use (S) of CurveBuffers.path/lengths/vertices from every pub entry point taking the "
-            "buffers; cache-invalidation typestate (S) for SliderPath's key fields; sibling agreement of the curve "
-            "constructors and accessors (N); borrow/privacy facts by compile-fail witnesses (S). Not decided: the "
-            "Bezier scratch vectors (index-level overwrite-before-read).",
+            "buffers; cache-invalidation typestate (S) for SliderPath's key fields, curve constructor arguments are "
+            "the unmodified key fields; sibling agreement of the curve constructors and accessors (N); the grow-only "
+            "Bezier scratch vectors are only used through element access / upper-bounded ranges (N: BZ); borrow/"
+            "privacy facts by compile-fail witnesses (S). Not decided: that Bezier scratch elements below the point "
+            "count are written before they are read (index-level).",
             "kill-before-use must-analysis over the mono call graph + dominance check for cache invalidation + "
             "compile_fail witnesses"),
-    'C19': ("Thin (N): progress is clamped to [0,1] and multiplied by the last cumulative length; position_at "
-            "composes progress_to_dist, idx_of_dist, interpolate_vertices on (path, lengths); owned and borrowed "
-            "accessor families resolve to the same free functions. Not decided: arc-length bound, vertex hits.",
+    'C19': ("Partial (N): progress is clamped to [0,1] and multiplied by the last cumulative length; the raw "
+            "progress parameter reaches nothing but that clamp; position_at composes progress_to_dist, idx_of_dist, "
+            "interpolate_vertices on (path, lengths); zero-length-segment guard, interpolation weight and lerp "
+            "formula; owned and borrowed accessor families resolve to the same free functions. Not decided: arc-length "
+            "bound, vertex hits as values.",
             "spec-constant slices and sibling agreement over HIR/MIR"),
     'C20': ("Partial: the tick buffer is killed on construction before any use (S) and is exclusively borrowed while "
             "an iterator lives (witness); state order Head->Ticks->LastTick->Tail->Done (S); repeat emission is not "
-            "control-dependent on the tick distance while the tick loop is (N); constants (N); the two encoder "
-            "callers derive their parameters identically (N). Not decided: tick times and progress values.",
+            "control-dependent on the tick distance while the tick loop is (N); tick emission is not control-dependent "
+            "on the span (N); closed forms of head/tick/repeat/last-tick/tail times and progress as written (N); "
+            "constants (N); the two encoder callers derive their parameters identically (N). Not decided: tick times "
+            "and progress as numbers.",
             "kill-before-use, control-dependence and state-order checks over MIR + compile_fail witness"),
 }
 
